@@ -103,6 +103,28 @@ def c18_b(ctx: Ctx):
                 out.append(ctx.ok(R, f, a, "the index is always restricted to the subset"))
             else:
                 out.append(ctx.inc(R, f, a, f"subset guard: {sorted(about)}"))
+    # the jobs that are summarised are listed jobs: _build_index walks the directory listing; ids handed in from outside would be resolved through the state
+    # point cache, which still knows removed jobs
+    bif = ctx.prog.funcs.get("signac.project:Project._build_index")
+    kb = "signac.project:Project._build_index|iterates-the-listing"
+    if bif is None:
+        out.append(ctx.inc(R, None, None, "_build_index not found", construct=kb))
+    else:
+        lps = [n for n in bif.node.body if isinstance(n, ast.For)] or [n for n in body_nodes(bif) if isinstance(n, ast.For)]
+        if not lps:
+            out.append(ctx.inc(R, bif, bif.node, "_build_index has no loop", construct=kb))
+        else:
+            lp = lps[0]
+            srcs = [lp.iter] if not isinstance(lp.iter, ast.Name) else list(common.reaching_defs(ctx, bif, lp.iter.id, lp))
+            listed = [d for d in srcs if isinstance(d, ast.Call) and any(t.qual.endswith(("._find_job_ids", "._job_dirs")) for t in common.targets_of_funcs(ctx, bif, d)) and not d.args and not d.keywords]
+            foreign = [d for d in srcs if d == "<param>" or (isinstance(d, ast.AST) and d not in listed)]
+            if foreign:
+                out.append(ctx.viol(R, bif, lp, "_build_index can iterate ids handed in by the caller instead of the directory listing: membership is then decided by _get_statepoint, i.e. by the "
+                                    "state point cache, which keeps entries of removed jobs - detect_schema(subset=<old list>) reports keys and values of jobs that no longer exist", construct=kb))
+            elif listed:
+                out.append(ctx.ok(R, bif, lp, "_build_index iterates the directory listing", construct=kb))
+            else:
+                out.append(ctx.inc(R, bif, lp, "iteration source of _build_index not recognised", construct=kb))
     uses = [n for n in body_nodes(f) if isinstance(n, ast.Attribute) and n.attr == "_sp_cache"]
     if uses:
         out.append(ctx.viol(R, f, uses[0], "detect_schema consults the state point cache: the cache keeps entries of removed jobs, so a subset that names a removed job contributes keys and values "
